@@ -115,11 +115,11 @@ def check_c02(ck, tier, replay=None):
         base = rj if which == 'rj' else ri
         link = [sh[i] == base[i] + z3.ToReal(n[i]) * L[i] for i in range(3)]
         for i in range(3):
-            smt.prove(ck, 'ortho.invariance[%s+n.L][%d]' % (which, i), pc + pc2 + link + notie, res2[i] != res[i], TO, probe=Lpos + link + [fresh[i] != res[i]] + pc)
+            smt.prove(ck, 'ortho.invariance[%s+n.L][%d]' % (which, i), pc + pc2 + link + notie, res2[i] != res[i], TO, probe=Lpos + link + [fresh[i] != res[i]] + pc, divform=True)
     # O3 antisymmetry
     p3, _ = run_box(mod, 'ortho', obox, rj, ri, Lpos, parsed=parsed); pc3, res3, _ = p3[0]
     for i in range(3):
-        smt.prove(ck, 'ortho.antisymmetry[%d] (ties included: round is half-away-from-zero, hence odd)' % i, pc + pc3, res3[i] != -res[i], TO, probe=Lpos + pc + [fresh[i] != -res[i]])
+        smt.prove(ck, 'ortho.antisymmetry[%d] (ties included: round is half-away-from-zero, hence odd)' % i, pc + pc3, res3[i] != -res[i], TO, probe=Lpos + pc + [fresh[i] != -res[i]], divform=True)
     # ------------------------------------------------------------------ open box
     p4, st4 = run_box(mod, 'open', [z3.Real('ob%d' % i) for i in range(9)], ri, rj, parsed=parsed); pc4, res4, _ = p4[0]
     for i in range(3):
@@ -173,22 +173,56 @@ def check_c02(ck, tier, replay=None):
         ck.obligation('tric.stage2.lemma n=%s: brick => image not (shorter and < h_min/2)' % (nv,), {'unsat': 'unsat', 'sat': 'sat'}.get(r, 'unknown'), dt, True, {'model': mdl} if mdl else None)
     if und: ck.notes.append('triclinic stage-2 lemma undecided (z3 unknown) for image vectors %s; claim narrowed to the decided ones' % und)
     ck.bounds['triclinic image vectors'] = '|n_i| <= %d (%d vectors, %d undecided); stage 1 holds for all reals' % (R, len(jobs), len(und))
-    # invariance under whole box vectors and antisymmetry (ties excluded = strict brick)
-    strict = [z3.And(2 * rest[i] < half[i], -2 * rest[i] < half[i]) for i in range(3)]
+    # invariance under whole box vectors and antisymmetry: staged lemma chains (z, then y, then x), each lemma one solver query.
+    # One-shot queries mix integer rounding variables with products of symbolic box entries and are not decided by z3.
+    def rnd(q, k): return z3.If(q >= 0, z3.And(z3.ToReal(k) <= q + F(1, 2), q + F(1, 2) < z3.ToReal(k) + 1), z3.And(z3.ToReal(k) - 1 < q - F(1, 2), q - F(1, 2) <= z3.ToReal(k)))
+    def uses(e, v):
+        st = [e]; seen = set()
+        while st:
+            x = st.pop()
+            if x.get_id() in seen: continue
+            seen.add(x.get_id())
+            if x.eq(v): return True
+            st.extend(x.children())
+        return False
+    def rounding_relation(it_, pc_, k, q, xvar):
+        """the code's own rounding constraint on (k, q), with the (non-linear) quotient expression abstracted to the real variable xvar"""
+        atoms = [c for c in pc_ if uses(c, k)]
+        return [z3.substitute(c, (q, xvar)) for c in atoms]
+    roundsA = [(k, q) for kind, k, q in itt.round_log]
+    ck.add_witness('triclinic kernel performs three roundings (z, y, x)', len(roundsA) == 3)
     sh = vec('sh')
     link = [sh[i] == rj[i] + z3.ToReal(n[0]) * cols[0][i] + z3.ToReal(n[1]) * cols[1][i] + z3.ToReal(n[2]) * cols[2][i] for i in range(3)]
-    p5, _ = run_box(mod, 'tric', tbox, ri, sh, grom, parsed=parsed); pc5, res5, _ = p5[0]
-    NB = 3 if tier == 'quick' else 1000
-    nb = [z3.And(x >= -NB, x <= NB) for x in n]
-    for i in (2, 1, 0):
-        # staged: lower components first (the reduction is sequential z, y, x)
-        pre = [res5[j] == rest[j] for j in range(i + 1, 3)]
-        smt.prove(ck, 'tric.invariance[rj + n0 a + n1 b + n2 c][%d] (|n_i|<=%d)' % (i, NB), pct + pc5 + link + strict + nb + pre, res5[i] != rest[i], TO, probe=grom + pct + [fresh[i] != rest[i]])
-    p6, _ = run_box(mod, 'tric', tbox, rj, ri, grom, parsed=parsed); pc6, res6, _ = p6[0]
-    for i in (2, 1, 0):
-        pre = [res6[j] == -rest[j] for j in range(i + 1, 3)]
-        smt.prove(ck, 'tric.antisymmetry[%d] (ties included)' % i, pct + pc6 + pre, res6[i] != -rest[i], TO, probe=grom + pct + [fresh[i] != -rest[i]])
-    ck.bounds['invariance shift'] = 'orthorhombic: unbounded integer n; triclinic: |n_i| <= %d' % NB
+    p5, _ = run_box(mod, 'tric', tbox, ri, sh, grom, parsed=parsed); pc5, res5, it5 = p5[0]
+    roundsB = [(k, q) for kind, k, q in it5.round_log]
+    p6, _ = run_box(mod, 'tric', tbox, rj, ri, grom, parsed=parsed); pc6, res6, it6 = p6[0]
+    roundsC = [(k, q) for kind, k, q in it6.round_log]
+    if not (len(roundsA) == len(roundsB) == len(roundsC) == 3): raise common.Inconclusive('triclinic kernel no longer has the three-rounding structure the staged argument needs')
+    qa, qb = z3.Reals('qa qb'); nn = z3.Int('nn')
+    # rounding lemmas on the code's own rounding constraints (linear integer/real): shift by an integer away from ties; oddness including ties
+    for m in range(3):
+        (kA, qA), (kB, qB), (kC, qC) = roundsA[m], roundsB[m], roundsC[m]
+        RA = rounding_relation(itt, pct, kA, qA, qa); RB = rounding_relation(it5, pc5, kB, qB, qb); RC = rounding_relation(it6, pc6, kC, qC, qb)
+        smt.prove(ck, 'rounding stage %d: code-rounding(q + n) = code-rounding(q) + n for integer n when q is not half-integral' % m, RA + RB + [qb == qa + z3.ToReal(nn), 2 * (qa - z3.ToReal(kA)) != 1, 2 * (qa - z3.ToReal(kA)) != -1], kB != kA + nn, TO, probe=[kB != kA + nn])
+        smt.prove(ck, 'rounding stage %d: code-rounding(-q) = -code-rounding(q), ties included' % m, RA + RC + [qb == -qa], kC != -kA, TO, probe=[kC != -kA])
+    stage_n = [n[2], n[1], n[0]]   # execution order of the reductions: z (column c), y (column b), x (column a)
+    ints_eq = []
+    for m in range(3):
+        (kA, qA), (kB, qB) = roundsA[m], roundsB[m]
+        # the quotient of the shifted run is the original quotient plus the integer shift of this stage (real arithmetic, integers as reals)
+        smt.prove(ck, 'tric.invariance stage %d: quotient(shifted) = quotient + n (given the earlier stages)' % m, grom + link + ints_eq, qB != qA + z3.ToReal(stage_n[m]), TO, probe=grom + [z3.Real('free') != qA + z3.ToReal(stage_n[m])], divform=True)
+        ints_eq.append(kB == kA + stage_n[m])     # follows from the stage lemma + the rounding lemma (no tie) -- both discharged above
+    for i in range(3):
+        smt.prove(ck, 'tric.invariance[rj + n0 a + n1 b + n2 c][%d]: result unchanged given the integer relations of all stages (n unbounded, ties excluded)' % i, grom + link + ints_eq, res5[i] != rest[i], TO, probe=grom + [fresh[i] != rest[i]])
+    ints_neg = []
+    for m in range(3):
+        (kA, qA), (kC, qC) = roundsA[m], roundsC[m]
+        smt.prove(ck, 'tric.antisymmetry stage %d: quotient(swapped) = -quotient (given the earlier stages)' % m, grom + ints_neg, qC != -qA, TO, probe=grom + [z3.Real('free') != -qA], divform=True)
+        ints_neg.append(kC == -kA)
+    for i in range(3):
+        smt.prove(ck, 'tric.antisymmetry[%d]: result changes sign given the integer relations of all stages (ties included)' % i, grom + ints_neg, res6[i] != -rest[i], TO, probe=grom + [fresh[i] != -rest[i]])
+    NB = 'unbounded'
+    ck.bounds['invariance shift'] = 'unbounded integer n for both box kinds; triclinic via a staged lemma chain (per stage: quotient relation, rounding lemma, final identity)'
     # ------------------------------------------------------------------ volume and shortest height
     gbox = [z3.Real('g%d' % i) for i in range(9)]
     A = gbox[0:3]; B = gbox[3:6]; C = gbox[6:9]
